@@ -22,7 +22,8 @@
 (***************************************************************************)
 EXTENDS PdbText
 
-CONSTANTS TerOnModelChange, CifChargeVerbatim, MaxAtoms, FullShapes
+CONSTANTS TerOnModelChange, CifChargeVerbatim, MaxAtoms,
+          ShapeLevel     \* 0: no one-atom shape tables, 1: a covering selection, 2: the full product
 
 VARIABLES orig,      \* the frame the path starts from: [fmt, rows]
           path,      \* remaining operations
@@ -47,7 +48,7 @@ StructOf(n) == { [k \in 1..n |-> Base(m[k], c[k], k)] :
                    c \in [1..n -> {ChA, ChB}] }
 StructTables == UNION { StructOf(n) : n \in 0..MaxAtoms }
 
-\* one-atom tables over value shapes: the full product (FullShapes), or every atom kind x charge x
+\* one-atom tables over value shapes: the full product (ShapeLevel 2), or every atom kind x charge x
 \* record type together with every alt x icode x number x coordinate x charge on one atom kind
 Shape(kd, q, al, ic, rn, xx, rc) ==
   << [ Base(1, ChA, 1) EXCEPT !.name = AtomKinds[kd][1], !.elem = AtomKinds[kd][2], !.charge = q, !.alt = al,
@@ -60,7 +61,8 @@ RnSet == {-12, 1, 9999}
 XSet  == {-999999, 1, 9999999}
 RcSet == {KwATOM, KwHETATM}
 ShapeTables ==
-  IF FullShapes
+  IF ShapeLevel = 0 THEN {}
+  ELSE IF ShapeLevel = 2
   THEN { Shape(kd, q, al, ic, rn, xx, rc) : kd \in 1..Len(AtomKinds), q \in QSet, al \in AlSet, ic \in AlSet,
                                             rn \in RnSet, xx \in XSet, rc \in RcSet }
   ELSE { Shape(kd, q, <<>>, <<>>, 1, 1, rc) : kd \in 1..Len(AtomKinds), q \in QSet, rc \in RcSet }
@@ -80,9 +82,10 @@ Paths(fmt) == IF fmt = "pdb" THEN { <<"write_pdb", "read_pdb">>,
 
 Init ==
   /\ \E t \in Tables, fmt \in {"pdb", "cif"} :
-       /\ orig = [fmt |-> fmt, rows |-> [k \in 1..Len(t) |-> AsRow(t[k], fmt)]]
-       /\ path \in Paths(fmt)
-  /\ frame = orig /\ src = <<>> /\ txt = <<>> /\ cif = <<>>
+       /\ \E p \in Paths(fmt) :
+            /\ orig = [fmt |-> fmt, rows |-> [k \in 1..Len(t) |-> AsRow(t[k], fmt)], path |-> p]
+            /\ path = p
+  /\ frame = [fmt |-> orig.fmt, rows |-> orig.rows] /\ src = <<>> /\ txt = <<>> /\ cif = <<>>
   /\ pc = "next" /\ i = 0 /\ open = FALSE /\ lastModel = 0 /\ lastChain = <<>> /\ lastRow = <<>>
 
 \* ------------------------------------------------------------------ write_pdb
@@ -195,10 +198,18 @@ InvLayout80 == TextComplete =>
 
 InvModelBracketing    == TextComplete => ModelBracketing(txt, src)
 InvTerAfterEveryChain == TextComplete => TerAfterEveryChain(txt)
+\* the named deviation of the trace spec describes exactly what the as-implemented writer does
+InvDeviationExact == TextComplete /\ ~TerOnModelChange /\ ModelRuns(src) > 1 => OnlyModelChangeLacksTerK(txt, Kinds(txt))
 InvStrictGrammar      == TextComplete => Accepts(Kinds(txt), TRUE)
 
 \* the round trip is the identity on every field of every row
-InvFieldIdentity == pc = "done" => frame = orig
+InvFieldIdentity == pc = "done" => frame.fmt = orig.fmt /\ frame.rows = orig.rows
+\* the named deviation of the trace spec describes exactly what the as-implemented write_cif does:
+\* on the cross paths every formal charge is lost and nothing else changes
+InvChargeDeviationExact == pc = "done" /\ CifChargeVerbatim =>
+  /\ frame.fmt = orig.fmt
+  /\ frame.rows = IF Len(orig.path) = 4 THEN [k \in 1..Len(orig.rows) |-> [orig.rows[k] EXCEPT !.charge = <<>>]]
+                  ELSE orig.rows
 
 \* every generated row fits the PDB widths and lies in the declared input domain
 InvDomain == i = 0 /\ cif = <<>> => \A k \in 1..Len(orig.rows) : FitsWidths(orig.rows[k])
